@@ -97,7 +97,13 @@ class Gen:
             return ('while', True, lid, b, body)
         b = self.bit(2)
         body = self.block(depth + 1, loops + [lid], r.random() < 0.4)
-        if r.random() < 0.5:
+        c = r.random()
+        if c < 0.25:
+            # constant-counted loop: counter initialised from a literal and advanced by a plain assignment
+            # (`let k: i32 = C; while k > 0 { k = k - 1; ... }`) — the shape on which stale constant propagation could
+            # make the condition look constant; encoded as bit = 100 + C
+            return ('while', False, lid, 100 + r.randint(1, 3), body)
+        if c < 0.6:
             return ('while', False, lid, b, body)
         return ('for', lid, b, body)
 
@@ -279,6 +285,9 @@ def r_stmt(s, ind):
         if s[1]:
             return ("%slet k%d: i32 = (a / %d) %% 3 + 1;\n%swhile true {\n%s    k%d = k%d - 1;\n%s%s}\n"
                     % (pad, lid, 1 << bit, pad, pad, lid, lid, r_block(s[4], ind + 1), pad))
+        if bit >= 100:
+            return ("%slet k%d: i32 = %d;\n%swhile k%d > 0 {\n%s    k%d = k%d - 1;\n%s%s}\n"
+                    % (pad, lid, bit - 100, pad, lid, pad, lid, lid, r_block(s[4], ind + 1), pad))
         return ("%slet k%d: i32 = (a / %d) %% 3;\n%swhile k%d > 0 {\n%s    k%d = k%d - 1;\n%s%s}\n"
                 % (pad, lid, 1 << bit, pad, lid, pad, lid, lid, r_block(s[4], ind + 1), pad))
     if k == 'for':
@@ -379,7 +388,7 @@ def interp(body, a, cap=2000):
             return st(e[1])
         if k == 'while':
             lid = s[2]
-            env[lid] = ((a // (1 << s[3])) % 3) + (1 if s[1] else 0)
+            env[lid] = (s[3] - 100) if s[3] >= 100 else ((a // (1 << s[3])) % 3) + (1 if s[1] else 0)
             while s[1] or env[lid] > 0:
                 steps[0] += 1
                 if steps[0] > cap: raise Diverge()
